@@ -156,7 +156,7 @@ func Run(sc *uw.Scenario) *simkit.Outcome {
 			}
 		}
 	}
-	for _, f := range []string{"/w/shared/keep", "/w/deep2/shared/keep"} {
+	for _, f := range []string{"/w/shared/keep", "/w/deep2/shared/keep", "/w/shared-secrets/keep", "/w/sharedx"} {
 		os.MkdirAll(filepath.Dir(f), 0o755)
 		os.WriteFile(f, []byte("OUT-shared"), 0o644)
 	}
@@ -204,7 +204,10 @@ func Run(sc *uw.Scenario) *simkit.Outcome {
 			return out
 		}
 		dec, complete := uw.Decode(raw)
-		gz := uw.Gzip(raw)
+		gz := ar.GzipSplit(raw)
+		if ar.SplitMember > 0 {
+			out.Probe("multi-member-gzip")
+		}
 		plan := ar.Reader
 		// faults whose offset lies beyond the stream wrap around, so that a
 		// generated fault is (almost) always inside the stream
@@ -332,7 +335,7 @@ func Run(sc *uw.Scenario) *simkit.Outcome {
 				if escs[i].class != "through-link" {
 					continue
 				}
-				if via := firstLinkOnPath(escs[i].target, escs[i].path, tree); via != "" {
+				for _, via := range linksOnPhysicalPath(filepath.Dir(realDst+"/"+escs[i].path)+"/"+escs[i].target, realDst) {
 					for _, o := range escs {
 						if o.path == via && o.class != "through-link" {
 							escs[i].class = o.class
@@ -421,6 +424,29 @@ func Run(sc *uw.Scenario) *simkit.Outcome {
 			var ise *slug.IllegalSlugError
 			if !errors.As(uerr, &ise) {
 				out.Violate("C12", "policy-error-kind", classes[firstBad], fmt.Sprintf("archive %d: entry %d (%q, %s) rejected with a non-illegal-slug error: %v", ai, firstBad, dec[firstBad].Name, classes[firstBad], uerr))
+			}
+		}
+		// C12: a successful Unpack has materialised the whole archive - also its link
+		// entries, whatever was at their paths before (for files and directories the
+		// model comparison above says the same, where the model is defined)
+		if uerr == nil && pan == nil && complete && !hasMut {
+			last := map[string]int{}
+			for i, e := range dec {
+				if classes[i] == model.ClSkip || classes[i] == model.ClRoot || classes[i] == model.ClNameEscape || classes[i] == model.ClNameDotDot {
+					continue
+				}
+				last[strings.Join(simkit.Segs(e.Name), "/")] = i
+			}
+			for pth, i := range last {
+				e := dec[i]
+				if e.Type != '2' || strings.Contains(pth, "..") || pth == "" || pth == "." {
+					continue
+				}
+				// skip when a later entry lies below this path (then it cannot be a link any more without that entry failing)
+				n, ok := tree[strings.TrimPrefix(strings.ReplaceAll("/"+pth, "/./", "/"), "/")]
+				if !ok || n.Kind != 'l' || n.Target != e.Link {
+					out.Violate("C12", "unpack-link-not-materialised", "link", fmt.Sprintf("archive %d: Unpack returned nil but link entry %d (%s -> %q), the last entry for its path, is not what is at that path now", ai, i, e.Name, e.Link))
+				}
 			}
 		}
 		if len(dec) >= 2 || faultFired || decorated {
@@ -626,6 +652,47 @@ func c04Class(target, linkPath string, tree map[string]PNode) string {
 		}
 	}
 	return "through-link"
+}
+
+// linksOnPhysicalPath follows p the way the kernel would and returns the
+// dst-relative paths of all symlinks met on the way that lie under dst.
+func linksOnPhysicalPath(p, realDst string) []string {
+	var out []string
+	hops := 0
+	var stack []string
+	todo := simkit.Segs(p)
+	for len(todo) > 0 && hops < 40 {
+		s := todo[0]
+		todo = todo[1:]
+		switch s {
+		case ".":
+			continue
+		case "..":
+			if len(stack) > 0 {
+				stack = stack[:len(stack)-1]
+			}
+			continue
+		}
+		cur := "/" + strings.Join(append(append([]string{}, stack...), s), "/")
+		fi, err := os.Lstat(cur)
+		if err != nil {
+			break
+		}
+		if fi.Mode()&os.ModeSymlink != 0 {
+			hops++
+			if simkit.Under(cur, realDst) && cur != realDst {
+				out = append(out, strings.TrimPrefix(cur, realDst+"/"))
+			}
+			t, _ := os.Readlink(cur)
+			if strings.HasPrefix(t, "/") {
+				stack = nil
+			}
+			todo = append(simkit.Segs(t), todo...)
+			continue
+		}
+		stack = append(stack, s)
+	}
+	return out
 }
 
 // firstLinkOnPath returns the dst-relative path of the first symlink component
